@@ -66,7 +66,7 @@ def monomial_integral(S, a, b):
 
 
 class ESRun:
-    def __init__(self, D, lmin, lmax, version=0, nrbe=1, auto=False, single=False, boundary=True, a=None, b=None, margin=None, peak=None, int_domain=False):
+    def __init__(self, D, lmin, lmax, version=0, nrbe=1, auto=False, single=False, boundary=True, a=None, b=None, margin=None, peak=None, int_domain=False, extra=None):
         SA, TG, Integration, EC, _ = _lib()
         self.D, self.lmin, self.lmax0 = D, lmin, lmax
         self.a = np.array([0.0] * D if a is None else a, dtype=float)
@@ -78,7 +78,7 @@ class ESRun:
         # the library accepts domain bounds given as integers (lists or integer arrays); hand them over in the type requested
         a_arg, b_arg = (np.array([int(x) for x in self.a]), np.array([int(x) for x in self.b])) if int_domain else (self.a, self.b)
         self.combi = SA(a_arg, b_arg, operation=self.op, version=version, number_of_refinements_before_extend=nrbe,
-                        automatic_extend_split=auto, split_single_dim=single)
+                        automatic_extend_split=auto, split_single_dim=single, **(extra or {}))
         if margin is not None:
             self.combi.margin = margin
         self.margin_req = 0.9 if margin is None else float(margin)
@@ -91,7 +91,7 @@ class ESRun:
         self.scripted = not auto
         self.started = False
         self.cfg = dict(D=D, lmin=lmin, lmax=lmax, version=version, nrbe=nrbe, auto=auto, single=single, boundary=boundary,
-                        a=[float(x) for x in self.a], b=[float(x) for x in self.b], margin=float(self.combi.margin), peak=peak)
+                        a=[float(x) for x in self.a], b=[float(x) for x in self.b], margin=float(self.combi.margin), peak=peak, extra=dict(extra or {}))
 
     def evaluate(self):
         with impl.quiet(), impl.watchdog(180):
@@ -288,7 +288,7 @@ def edge_replay(rep, g, c, traces, maxedges, rng):
 
 def random_history(rng, c, steps):
     run = ESRun(c['D'], c['lmin'], c['lmax'], version=c['version'], nrbe=c['nrbe'], auto=c.get('auto', False), single=c.get('single', False),
-                boundary=c.get('boundary', True), a=c.get('a'), b=c.get('b'), margin=c.get('margin'), peak=c.get('peak'), int_domain=c.get('int_domain', False))
+                boundary=c.get('boundary', True), a=c.get('a'), b=c.get('b'), margin=c.get('margin'), peak=c.get('peak'), int_domain=c.get('int_domain', False), extra=c.get('extra'))
     run.evaluate()
     evs = [observe(run)]
     script = []
